@@ -1,7 +1,7 @@
 (* Observation function for the correspondence check of model/Files.v against
    DictSupplementaryFileContainer. *)
 From Coq Require Import List ZArith Bool String Ascii.
-From Basyx Require Import model.Corr model.Files.
+From Basyx Require Import model.Corr model.Files model.FileStreams.
 Import ListNotations.
 Local Open Scope Z_scope.
 
@@ -37,3 +37,10 @@ Definition check_case (c : list op * list string * Z) : bool :=
 (* append_counter alone, for the translator-free validation of the string helper *)
 Definition check_ac (c : string * nat * list Z) : bool :=
   let '(n, i, expected) := c in zl_eqb (codes (append_counter n i)) expected.
+
+(* read() of a positioned in-memory stream (model/FileStreams.v) against io.BytesIO: the bytes handed out, and the
+   bytes a second read() hands out *)
+Definition check_read (c : list Z * nat * list Z * list Z) : bool :=
+  let '(b, p, expected, expected2) := c in
+  let r := read_all (mkStream b p) in
+  zl_eqb (fst r) expected && zl_eqb (fst (read_all (snd r))) expected2.
